@@ -34,6 +34,7 @@ type waitScn struct {
 	stagger bool          // batch: item i's attempts take i*w/2 of virtual time (items are not in lock-step)
 	inFlow  bool          // single node: run as the only node of a flow
 	fb      bool          // a fallback that always recovers is configured (function-style node / batch)
+	cause   bool          // the context is cancelled with a custom cause (context.Cause(ctx) != ctx.Err())
 }
 
 func (s waitScn) name() string {
@@ -48,6 +49,9 @@ func (s waitScn) name() string {
 	fbs := ""
 	if s.fb {
 		fbs = " recovering-fallback"
+	}
+	if s.cause {
+		fbs += " cancelled-with-cause"
 	}
 	return fmt.Sprintf("wait kind=%s w=%v N=%d items=%d c=%d cancel=%s execDur=%v stop=%v stagger=%v inFlow=%v%s", k, s.w, s.n, s.items, s.c, c, s.execDur, s.stop, s.stagger, s.inFlow, fbs)
 }
@@ -67,7 +71,18 @@ func (s waitScn) scenario() Scenario {
 		var cancelled core.Cell[bool]
 		var runOver core.Cell[bool]
 		cancelAt.Set(-1)
-		ctx, cancel := core.WithCancel(context.Background())
+		var parent context.Context = context.Background()
+		var stdCancel context.CancelCauseFunc
+		if s.cause {
+			parent, stdCancel = context.WithCancelCause(parent)
+		}
+		ctx, cancel0 := core.WithCancel(parent)
+		cancel := func() {
+			if stdCancel != nil {
+				stdCancel(errCustomCause)
+			}
+			cancel0()
+		}
 		perItem := map[int]int{}
 		exec := func(item int) (any, error) {
 			k := perItem[item]
@@ -387,6 +402,15 @@ func genC20(tier string) []Scenario {
 		out = append(out, waitScn{kind: kFuncR, w: w, n: 3, cancelJ: -1, bound: 0, fb: true}.scenario())
 	}
 	// long retry sequences (9 and 10 attempts): every wait of every attempt is there
+	// a cancellation WITH A CUSTOM CAUSE during the wait: what is reported still matches ctx.Err()
+	for _, w := range []time.Duration{time.Millisecond, time.Hour} {
+		for _, kind := range []int{kBase, kFuncR} {
+			out = append(out, waitScn{kind: kind, w: w, n: 3, cancelJ: 0, d: w / 2, bound: 1, cause: true}.scenario())
+		}
+		for _, c := range []int{0, 2} {
+			out = append(out, waitScn{kind: -1, w: w, n: 3, items: 2, c: c, cancelJ: 0, d: w / 2, bound: 1, cause: true}.scenario())
+		}
+	}
 	out = append(out, waitScn{kind: -1, w: time.Millisecond, n: 10, items: 1, c: 0, cancelJ: -1, bound: 0}.scenario())
 	out = append(out, waitScn{kind: -1, w: time.Millisecond, n: 9, items: 2, c: 2, cancelJ: -1, bound: 0}.scenario())
 	out = append(out, waitScn{kind: kFuncR, w: time.Millisecond, n: 10, cancelJ: -1, bound: 0}.scenario())
